@@ -385,7 +385,7 @@ func runWorker(bi *buildInfo, pc *propCfg, seed uint64, w int, spec workerSpec, 
 		env = append(env, "GOMAXPROCS="+strconv.Itoa(spec.gomaxprocs))
 	}
 	if pc.race {
-		env = append(env, fmt.Sprintf("GORACE=log_path=%s halt_on_error=0 history_size=2", filepath.Join(scratch, fmt.Sprintf("race-%d-%d", w, time.Now().UnixNano()))))
+		env = append(env, fmt.Sprintf("GORACE=log_path=%s halt_on_error=0 history_size=2 atexit_sleep_ms=0 exitcode=0", filepath.Join(scratch, fmt.Sprintf("race-%d-%d", w, time.Now().UnixNano()))))
 	}
 	cmd.Env = env
 	var stderr bytes.Buffer
@@ -579,7 +579,7 @@ func execReplay(bi *buildInfo, pc *propCfg, rf *replayFile, verbose bool) (*repl
 	env := append(os.Environ(), "VERIF_SCRATCH_ROOT="+filepath.Join(scratch, "src"))
 	raceLog := filepath.Join(scratch, fmt.Sprintf("race-replay-%d", n))
 	if pc.race {
-		env = append(env, fmt.Sprintf("GORACE=log_path=%s halt_on_error=0 history_size=2", raceLog))
+		env = append(env, fmt.Sprintf("GORACE=log_path=%s halt_on_error=0 history_size=2 atexit_sleep_ms=0 exitcode=0", raceLog))
 	}
 	cmd.Env = env
 	var stdout, stderr bytes.Buffer
